@@ -384,3 +384,117 @@ Proof.
         (conj Demo.estimate_runs (conj Demo.mcmc_hypotheses Demo.mcmc_runs))))))).
 Qed.
 Print Assumptions C13_state_examples.
+
+(* ====================================================================== source-level tie (Api/SrcProg*.v, coq/gen/GenC13.v)
+   The programs below are REGENERATED from the python source on every run (harness/translate/c13_calls.py); the object every
+   clone / put / read addresses is copied from the source and resolved by [denote].  The statements quantify over every
+   instance: number of individuals or requests, variable lists, values, optimiser and sampler activity. *)
+From Coq Require Import String.   (* after this point `length` is String.length: write List.length *)
+From Leaspy Require Import Api.SrcProg Api.SrcProgProofs Api.SrcProgGenProofs.
+From LeaspyGen Require Import GenC13.
+
+(** `BaseModel.estimate` -> `compute_individual_trajectory` (models/mcmc_saem_compatible.py; models/joint.py when [joint]) as
+    written today: for every instance the generated program denotes [estimate_many] of the instance's requests; every event
+    leaves the model's own state alone and uses no generator; the call leaves the model's State OBJECT, the pointer to it
+    and the three generators exactly as they were. *)
+Theorem C13_src_estimate_pure :
+  forall (V : Type) sread swrite sclone tracked tape seed_pos (joint : bool) (I : inst V),
+    exists script,
+      denote V I (if joint then gen_estimate_joint else gen_estimate) = Some script
+      /\ script = (if joint
+                   then estimate_many V 0 (i_name V I "t"%string) (estj_outs V I) (map (estj_req V I) (seq 0 (i_n V I)))
+                   else estimate_many V 0 (i_name V I "t"%string) [i_name V I "model"%string] (map (est_req V I) (seq 0 (i_n V I))))
+      /\ forallb (untouched_ev V) script = true /\ forallb (nodraw_ev V) script = true
+      /\ forall s p c', api_call V sread swrite sclone tracked tape seed_pos script s p = Some c' ->
+                        nth_error (cS c') 0 = Some s /\ cCur c' = 0 /\ cPos c' = p.
+Proof. exact src_estimate_pure. Qed.
+Print Assumptions C13_src_estimate_pure.
+
+(** mean_posterior / mode_posterior (algo/personalize/mcmc.py through BaseModel.personalize and BaseAlgorithm.run) as written
+    today, for every instance: the generated program denotes [mcmc_call pre dvars ivars tail] where [pre] = the three seeds,
+    the data and the initial individual values put on `state` = an alias of `model.state` ITSELF, the sampler activity on that
+    same object; the clean-up unsets "t", every observation variable and every individual latent variable on a clone which
+    becomes `model.state`; [tail] addresses a later clone only.  The shape predicates of C13_mcmc_call_clean hold for the
+    generated program symbolically (the only hypothesis left, [sampling_ok]: the samplers assign data / individual
+    variables only), hence its conclusion. *)
+Theorem C13_src_mcmc_call_clean :
+  forall (V : Type) sread swrite sclone tracked tape seed_pos anc indep simOn,
+    state_interface V sread swrite sclone anc indep simOn ->
+    forall (I : inst V),
+      denote V I gen_mcmc = Some (mcmc_call V (mcmc_pre V I) (mcmc_dvars V I) (i_ind V I) (mcmc_tail V I))
+      /\ forallb (clones_from V 1) (mcmc_tail V I) = true
+      /\ (sampling_ok V I = true ->
+          forallb (fun e => writes_in V (ApiProofs.mem (mcmc_dvars V I ++ i_ind V I)) e && noclone_ev V e) (mcmc_pre V I) = true
+          /\ forall (P : view) s p c',
+               simOn top s s ->
+               (forall n, In n (mcmc_dvars V I ++ i_ind V I) -> P n = false /\ indep n = true) ->
+               api_call V sread swrite sclone tracked tape seed_pos
+                        (mcmc_call V (mcmc_pre V I) (mcmc_dvars V I) (i_ind V I) (mcmc_tail V I)) s p = Some c' ->
+               exists sf, model_state V c' = Some sf /\ cCur c' = 1 /\ simOn P sf s /\
+                          forall n, In n (mcmc_dvars V I ++ i_ind V I) -> snd (sread sf n) = None).
+Proof. intros; eapply src_mcmc_call_clean; eauto. Qed.
+Print Assumptions C13_src_mcmc_call_clean.
+
+(** scipy_minimize (algo/personalize/scipy_minimize.py) as written today, for every instance for which the program denotes a
+    script (always the case on the recorded calls): it is [scipy_call seed scal work] where every event of [work] addresses a
+    per-individual clone — the data, the start point (`put_individual_parameters`) and the optimiser all receive
+    `states[idx]` in the source —, so no event assigns or replaces the model's own state and `model.state` reads as before. *)
+Theorem C13_src_scipy_call_pure :
+  forall (V : Type) sread swrite sclone tracked tape seed_pos anc indep simOn,
+    state_interface V sread swrite sclone anc indep simOn ->
+    forall (I : inst V) (script : list (ev V)),
+      denote V I gen_scipy = Some script ->
+      exists work, script = scipy_call V (i_seed V I) (i_scal V I) work
+        /\ forallb (untouched_ev V) work = true
+        /\ forallb (writes_in V (fun _ => false)) script = true
+        /\ forall s p c', simOn top s s -> api_call V sread swrite sclone tracked tape seed_pos script s p = Some c' ->
+             exists s', model_state V c' = Some s' /\ cCur c' = 0 /\ simOn top s' s /\ forall n, snd (sread s' n) = snd (sread s n).
+Proof. intros; eapply src_scipy_call_pure; eauto. Qed.
+Print Assumptions C13_src_scipy_call_pure.
+
+(** simulate (algo/simulate/base.py, simulate.py) as written today: the footprint regenerated from the source contains reads
+    of the model's state, draws and seeds only ([readonly_atom], decided by computation inside the proof); every script within
+    it — whatever the numbers of patients, visits, features, draws; `estimate` on clones — assigns nothing on, and never
+    replaces, the model's own state: `model.state` is the same object and every variable reads as before. *)
+Theorem C13_src_simulate_pure :
+  forall (V : Type) sread swrite sclone tracked tape seed_pos anc indep simOn,
+    state_interface V sread swrite sclone anc indep simOn ->
+    forall (I : inst V) (script : list (ev V)),
+      within V I gen_simulate_foot script = true ->
+      forallb (writes_in V (fun _ => false)) script = true
+      /\ forall s p c', simOn top s s -> api_call V sread swrite sclone tracked tape seed_pos script s p = Some c' ->
+           exists s', model_state V c' = Some s' /\ cCur c' = 0 /\ simOn top s' s /\ forall n, snd (sread s' n) = snd (sread s n).
+Proof. intros; eapply src_simulate_pure; eauto. Qed.
+Print Assumptions C13_src_simulate_pure.
+
+(** The caller's settings with the kind of copy READ FROM `BaseAlgorithm.__init__` today (`gen_settings_copy`; the translator
+    also checks that no module of leaspy.algo re-binds `algo_parameters` to, or writes through, `settings.parameters`). *)
+Theorem C13_src_settings_copied :
+  forall (h : heap) (a : nat) (ws : list pwrite),
+    caller_ok h a ->
+    view_dict (do_writes (snd (copy_of gen_settings_copy h a)) (fst (copy_of gen_settings_copy h a)) ws) a = view_dict h a.
+Proof. exact src_settings_copied. Qed.
+Print Assumptions C13_src_settings_copied.
+
+(** Non-vacuity: on the memo table the generated estimate program, instantiated with two requests, IS the script
+    [MemoCalls.est2] of C13_call_examples and runs to a + t for each, the state object untouched. *)
+Theorem C13_src_examples :
+  denote Memo.V SrcDemo.est_inst gen_estimate = Some MemoCalls.est2
+  /\ option_map (fun c => (cRegs c, nth_error (cS c) 0, cCur c))
+                (match denote Memo.V SrcDemo.est_inst gen_estimate with
+                 | Some sc => Memo.api_call sc Memo.after_fit (4, 5, 6) | None => None end)
+     = Some ([Some 18%Z; Some 17%Z], Some Memo.after_fit, 0)
+  (* the generated MCMC program with a sampler that reads, draws and assigns the individual variable: hypothesis met, model
+     left on the cleaned clone with the individual variable unset and the parameter kept *)
+  /\ sampling_ok Memo.V SrcDemo.mcmc_inst = true
+  /\ option_map (fun c => (cCur c, option_map (fun s => (snd (Memo.sread s 0), snd (Memo.sread s 1))) (model_state Memo.V c)))
+                (match denote Memo.V SrcDemo.mcmc_inst gen_mcmc with
+                 | Some sc => Memo.api_call sc Memo.after_fit (4, 5, 6) | None => None end)
+     = Some (1, Some (None, Some 10%Z))
+  (* the generated scipy program for two individuals denotes a script: 3 states at the end, the model's untouched, 7 reads *)
+  /\ option_map (fun c => (cCur c, nth_error (cS c) 0, List.length (cS c), List.length (cRegs c)))
+                (match denote Memo.V SrcDemo.scipy_inst gen_scipy with
+                 | Some sc => Memo.api_call sc Memo.after_fit (4, 5, 6) | None => None end)
+     = Some (0, Some Memo.after_fit, 3, 7).
+Proof. exact (conj (proj1 SrcDemo.estimate_demo) (conj (proj2 SrcDemo.estimate_demo) (conj (proj1 SrcDemo.mcmc_demo) (conj (proj2 SrcDemo.mcmc_demo) SrcDemo.scipy_demo)))). Qed.
+Print Assumptions C13_src_examples.
